@@ -24,7 +24,7 @@ def angle_ok(spec, top=True):
     return True
 
 
-def oracle(case, est=None):
+def _oracle(case, est=None):
     """inverse_transform(transform(X)) returns each episode's trailing samples (all of them when delays
     agree); leading lifted-state columns are the original state for non-pre-processor pipelines."""
     ks = pipes.kinds_in(case['spec'])
@@ -63,6 +63,13 @@ def oracle(case, est=None):
     return None
 
 
+def oracle(case, est=None):
+    try:
+        return _oracle(case, est)
+    except Exception as ex:      # the round trip must not raise on valid data
+        return f'transform / inverse_transform raised {type(ex).__name__}: {ex}'
+
+
 def run(ctx):
     ctx.rule = ('random lifting-function trees (all ten kinds, depth<=3, chains<=3, forced share of unequal '
                 'delays) x (n_states 1..3, n_inputs 0..2, episode feature on/off, 1..4 episodes of unequal '
@@ -88,8 +95,15 @@ def run(ctx):
             ctx.count('rejected:' + st.err_enum(e))
             continue
         X = st.X_of(c)
-        Xt = est.transform(X)
-        Xr = est.inverse_transform(Xt)
+        try:
+            Xt = est.transform(X)
+            Xr = est.inverse_transform(Xt)
+        except Exception as ex:
+            ctx.mismatch(f'implementation raised {type(ex).__name__}: {ex} (model returns a matrix)', c, None, None)
+            why = oracle(st.float_case(ctx.rng, c))
+            if why:
+                ctx.fail(why, c, {'kinds': sorted(pipes.kinds_in(c['spec']))})
+            continue
         l1, cells, reg = st.value_line('rt', c, est)
         l2, _, _ = st.value_line('tr', c, est)
         lines += [l1, l2]
